@@ -1,6 +1,7 @@
 (* C10 — the node id is keccak256 of the record's public key (uncompressed form) and nothing else. *)
 Require Import Enr.Bytes Enr.Consts Enr.Rlp Enr.SortedMap Enr.Keccak Enr.Record Enr.Update.
 Require Import Enr.Spec.
+Require Import EnrProofs.Thm_Small EnrProofs.Thm_Sites.
 Require Import EnrProofs.Thm_Decode EnrProofs.Thm_Update EnrProofs.Thm_Valid.
 Open Scope N_scope.
 
@@ -71,3 +72,18 @@ Proof.
   rewrite (Thm_Update.step_nid c kt _ _ _ _ _ _ Hs Hn H), N. reflexivity.
 Qed.
 Print Assumptions same_key_update_keeps_nid.
+
+(* the hash in these statements is the real keccak256: standard vectors, evaluated by the kernel
+   (empty input, "abc", and a two-block message of 200 bytes 0xa3) *)
+Theorem keccak256_vectors :
+  keccak256 [] = [0xc5;0xd2;0x46;0x01;0x86;0xf7;0x23;0x3c;0x92;0x7e;0x7d;0xb2;0xdc;0xc7;0x03;0xc0;
+                  0xe5;0x00;0xb6;0x53;0xca;0x82;0x27;0x3b;0x7b;0xfa;0xd8;0x04;0x5d;0x85;0xa4;0x70] /\
+  keccak256 [97; 98; 99] = [0x4e;0x03;0x65;0x7a;0xea;0x45;0xa9;0x4f;0xc7;0xd4;0x7b;0xa8;0x26;0xc8;0xd6;0x67;
+                            0xc0;0xd1;0xe6;0xe3;0x3a;0x64;0xa0;0x36;0xec;0x44;0xf5;0x8f;0xa1;0x2d;0x6c;0x45] /\
+  keccak256 (repeat 0xa3 200) = [0x3a;0x57;0x66;0x6b;0x04;0x87;0x77;0xf2;0xc9;0x53;0xdc;0x44;0x56;0xf4;0x5a;0x25;
+                                 0x88;0xe1;0xcb;0x6f;0x2d;0xa7;0x60;0x12;0x2d;0x53;0x0a;0xc2;0xce;0x60;0x7d;0x4a].
+Proof. exact (conj Thm_Small.keccak256_empty (conj Thm_Small.keccak256_abc Thm_Small.keccak256_two_blocks)). Qed.
+Print Assumptions keccak256_vectors.
+Theorem node_id_is_32_bytes : forall pk, lenN (node_id_of pk) = 32.
+Proof. exact Thm_Sites.node_id_len. Qed.
+Print Assumptions node_id_is_32_bytes.
